@@ -42,7 +42,13 @@ HC_TAG = ["HC", [E("title", True, [T("Tt")])]]
 HC_TXT = ["HC", [T("plain & text")]]
 ITEMS = [T("txt"), B([T("b")]), I([T("i")]), ["DI", D_A1], ["DI", D_A2], ["DI", D_URL], HC_TAG, HC_TXT,
          B([["DI", D_A1], I([["DI", D_URL], T("n")])]), ["X", B([T("xb"), ["DI", D_A2]])],
-         E("img", False, [["DI", D_URL]], [["src", "i.png"]])]
+         E("img", False, [["DI", D_URL]], [["src", "i.png"]]),
+         # a <body> / <html> tag that is NOT the sole content is ordinary content
+         E("body", True, [T("inner-body"), ["DI", D_A1]]),
+         E("html", True, [E("body", True, [T("inner-html")])], [["lang", "xx"]]),
+         # head_content whose payload is an object that is tagifiable and self-rendering (as a JSX
+         # component is): the document shows its expansion
+         ["HC", [["XR", E("title", True, [T("xr-title")]), "<title>xr-title</title>"]]]]
 HEADKIDS = [E("title", True, [T("user title")]), ["DI", D_A2], E("link", True, [], [["rel", "x"]]), HC_TAG,
             E("meta", True, [], [["charset", "iso-8859-1"]])]
 ATTRS = [[], [["lang", "en"]], [["class_", "k"]]]
@@ -56,8 +62,11 @@ def info_of(spec):
     if spec[0] == "HC":
         from htmltools import TagList
         markup = TagList(*[build(c) for c in spec[1]]).get_html_string()
+        nodes = []
+        for c in spec[1]:
+            nodes.extend(expand(c))
         return {"name": "headcontent_" + hashlib.sha1(markup.encode("utf-8")).hexdigest(),
-                "version": "0.0", "head": markup, "head_spec": spec[1]}
+                "version": "0.0", "head": markup, "head_spec": nodes}
     return None
 
 
@@ -227,6 +236,24 @@ def fn(case):
         doc = HTMLDocument(*objs[:1], **kw)
         if objs[1:]:
             doc.append(*objs[1:])
+    elif mode == "render-mutate-render":
+        # history: the document is rendered, then a tag INSIDE its content is changed through the
+        # Tag API (not through the document), then it is rendered again
+        doc = HTMLDocument(*objs, **kw)
+        doc.render(lib_prefix=prefix, include_version=incv)
+        idx = next((i for i, c in enumerate(content) if c[0] == "E" and c[1] not in ("html", "body")), None)
+        if idx is not None:
+            objs[idx].append("late-text", build(["DI", D_URL]))
+            objs[idx].add_class("late")
+            c = content[idx]
+            cattrs = [a for a in c[3]]
+            cur = next((a for a in cattrs if a[0] == "class"), None)
+            if cur:
+                cattrs = [[a[0], a[1] + " late"] if a[0] == "class" else a for a in cattrs]
+            else:
+                cattrs = cattrs + [["class", "late"]]
+            content = list(content)
+            content[idx] = ["E", c[1], c[2], cattrs, c[4] + [T("late-text"), ["DI", D_URL]]]
     elif mode == "render-append-render":
         # history: render once before the rest of the content is appended
         doc = HTMLDocument(*objs[:1], **kw)
@@ -283,7 +310,8 @@ def plan(tier):
     htmlv = html_variants(items)
     content = Alt(frag, body, htmlv)
     if tier == "quick":
-        cfg = Prod(Const(["ctor", "append", "render-append-render", "render-empty-then-append", "taglist-shared"]), Const(ATTRS[:2]),
+        cfg = Prod(Const(["ctor", "append", "render-append-render", "render-empty-then-append", "taglist-shared",
+                          "render-mutate-render"]), Const(ATTRS[:2]),
                    Const(["lib", None]), Const([True]))
         cfg2 = Prod(Const(["ctor"]), Const(ATTRS[:2]), Const(PREFIXES), Const([True, False]))
         small = Alt(Seq(items, 0, 1), Map(Seq(items, 0, 1), lambda ks: [["E", "body", True, [], ks]]),
@@ -296,7 +324,8 @@ def plan(tier):
                  space=Map(Prod(small, cfg2), lambda c: (c[0],) + tuple(c[1])),
                  note=f"{small.size} small contents x all lib_prefix x include_version"),
         ]
-    cfg = Prod(Const(["ctor", "append", "ctor+append", "render-append-render", "render-empty-then-append", "taglist-shared"]),
+    cfg = Prod(Const(["ctor", "append", "ctor+append", "render-append-render", "render-empty-then-append", "taglist-shared",
+                      "render-mutate-render"]),
                Const(ATTRS), Const(PREFIXES), Const([True, False]))
     return [dict(kind="space", name="contents-x-all-configs", fn=fn,
                  space=Map(Prod(content, cfg), lambda c: (c[0],) + tuple(c[1])),
